@@ -101,14 +101,14 @@ ITEM_PROPS = {
     "is_unsolicited_buffer_full": {"C13"}, "is_unsolicited_buffer_empty": {"C13", "C15"}, "service_merge": {"C15"},
     "process_write_loop": {"C10", "C14"}, "process_run_loop": {"C10", "C14"}, "process_read_loop": {"C10", "C14"},
     "process_test_loop": {"C10", "C14"}, "T5": {"C16", "C17"},
-    "T6": {"C11", "C12", "C14"}, "T7": {"C01", "C11", "C14", "C20"}, "T8": {"C01", "C02", "C20"},
+    "T6": {"C11", "C12", "C14"},
     "T4": {"C01", "C02", "C06", "C09", "C10", "C11", "C12", "C13", "C14", "C15", "C18", "C19", "C20"},
 }
 
 
 def translator_item_props(item):
-    if item.startswith("steps."):
-        # Gen/Steps/<Module>.lean (translator items T9-T20): the properties whose theorems are built on that group of functions
+    if item.split(".")[0] in ("steps", "setters", "readers"):
+        # Gen/{Steps,Setters,Readers}/<Module>.lean (translator items T7-T20): the properties whose theorems are built on that group of functions
         import translate
         return translate.step_module_props().get(item, set())
     return ITEM_PROPS.get(item, set("C%02d" % k for k in range(1, 21)))
